@@ -893,6 +893,90 @@ def _seq_shard(args):
 
 
 # ------------------------------------------------------------------------------------------------
+# ---------------------------------------------------------------------------------------------
+# part 3: identity across lazy loaders (E2 style: every history runs in its own forked interpreter
+# that starts from the untouched public table).  Loaders may create isotopes on demand
+# (Element.add_isotope); the objects that existed before a loader ran must be the ones every later
+# lookup returns, and the set of isotopes must not depend on which loaders ran.
+LOADERS = [
+    ("neutron", "pt.Fe.neutron"), ("neutron-via-isotope", "pt.Ni[58].neutron"),
+    ("activation", "pt.Fe[58].neutron_activation"), ("xray", "pt.Fe.ion[2].xray"),
+    ("radius", "pt.Fe.covalent_radius"), ("crystal", "pt.Fe.crystal_structure"), ("lines", "pt.Cu.K_alpha"),
+    ("mff", "pt.Fe.magnetic_ff"), ("nsf.init", "__import__('periodictable.nsf').nsf.init(pt.elements)"),
+    ("activation.init", "__import__('periodictable.activation').activation.init(pt.elements)"),
+    ("nsf.init-reload", "__import__('periodictable.nsf').nsf.init(pt.elements, reload=True)"),
+    ("activation.init-reload", "__import__('periodictable.activation').activation.init(pt.elements, reload=True)"),
+]
+
+
+def _identity_snapshot(pt):
+    snap = {}
+    for el in pt.elements:
+        snap[(el.number, 0, 0)] = el
+        for q, ion in el.ion.ionset.items():
+            snap[(el.number, 0, q)] = ion
+        for A, iso in el._isotopes.items():
+            snap[(el.number, A, 0)] = iso
+            for q, ion in iso.ion.ionset.items():
+                snap[(el.number, A, q)] = ion
+    return snap
+
+
+def _loader_path(args):
+    hist, = args
+    acc = Acc()
+    pt = load_pt()
+    # a few ions exist before the loaders run
+    for a in (pt.Fe, pt.Fe[56], pt.Ni[58], pt.H, pt.D, pt.Cu[63]):
+        for q in a.ions[:2]:
+            a.ion[q]
+    before = _identity_snapshot(pt)
+    code = ["import periodictable as pt", "atoms = dict(((el.number, i.isotope), i) for el in pt.elements for i in el)"]
+    for name in hist:
+        expr = dict(LOADERS)[name]
+        code.append(expr)
+        try:
+            eval(expr, dict(pt=pt, __import__=__import__))
+        except Exception as e:
+            acc.violation("loader-raises:%s:%s" % (name, type(e).__name__), dict(part="loaders", history=list(hist)),
+                          "no exception", "%s: %s" % (type(e).__name__, e), standalone="\n".join(code) + "\n")
+            return acc
+        acc.transitions += 1
+        acc.evaluations += 1
+        after = _identity_snapshot(pt)
+        code2 = code + ["print([k for k, v in atoms.items() if pt.elements[k[0]][k[1]] is not v][:5])"]
+        lost = [k for k in before if k not in after]
+        changed = [k for k in before if k in after and after[k] is not before[k]]
+        new_iso = [k for k in after if k not in before and k[2] == 0]
+        if lost or changed:
+            acc.violation("identity-changed-by-loader:%s" % name.split("-")[0].split(".")[0],
+                          dict(part="loaders", history=list(hist)),
+                          "every atom object that existed before the loader is still the one looked up",
+                          "replaced: %r lost: %r" % (changed[:4], lost[:4]), standalone="\n".join(code2) + "\n")
+            return acc
+        if new_iso:
+            acc.violation("isotope-set-changed-by-loader:%s" % name.split("-")[0].split(".")[0],
+                          dict(part="loaders", history=list(hist)),
+                          "the isotopes of an element do not depend on which loaders ran",
+                          "new isotopes %r" % new_iso[:6], standalone="\n".join(code2) + "\n")
+            return acc
+        # every route still returns the snapshot objects
+        for (Z, A, q), obj in list(before.items())[::97]:
+            el = pt.elements[Z]
+            got = el if A == 0 else el[A]
+            got = got.ion[q] if q else got
+            if got is not obj:
+                acc.violation("identity-changed-by-loader:%s" % name, dict(part="loaders", history=list(hist)),
+                              "same object", "%r" % ((Z, A, q),), standalone="\n".join(code2) + "\n")
+                return acc
+    acc.states += 1
+    acc.nontrivial += 1
+    acc.count("loader_histories")
+    if len(hist) == 2 and hist[0] == "neutron":
+        acc.sample(dict(part="loaders", history=list(hist)))
+    return acc
+
+
 def run(ctx):
     jobs = max(2, ctx.jobs)          # always forked: the parent's PRIVATE_TABLES must not grow
     load_pt()                        # imported once; the workers inherit an untouched public table
@@ -924,6 +1008,12 @@ def run(ctx):
         if ctx.acc.info.get(k):
             ctx.acc.cap("%s not applicable to this implementation in %d cases (the renamed pickle is not "
                         "what the library writes)" % (what, ctx.acc.info[k]))
+    names = [n for n, _ in LOADERS]
+    hists = [(a,) for a in names] + [(a, b) for a in names for b in names]
+    if not ctx.quick:
+        hists += [(a, b, c) for a in names for b in names for c in names]
+    for acc in common.pmap(_loader_path, [(h,) for h in rotate(hists, ctx.seed)], jobs, "C08 loaders"):
+        ctx.acc.merge(acc)
     ctx.acc.info["sequence_depth"] = depth
     ctx.acc.info["sequence_alphabet"] = len(EVENTS)
     ctx.acc.traces = ctx.acc.transitions
@@ -943,6 +1033,10 @@ def replay(ctx, case, signature=None):
 def _replay(acc, case):
     if case.get("part") == "sequence":
         run_path(tuple(case["history"]), acc)
+        return
+    if case.get("part") == "loaders":
+        from ..histmc import in_fork
+        acc.merge(in_fork(lambda: _loader_path((tuple(case["history"]),))))
         return
     if case.get("part") != "sweep":
         raise MachineryError("unknown case %r" % (case,))
